@@ -15,7 +15,7 @@ import time
 from collections import Counter
 from pathlib import Path
 
-from vp.farm import Case, fp_of
+from vp.farm import Case, CaseTimeout, fp_of
 from vp.gen import workflows as G
 
 PROP = "C17"
@@ -28,7 +28,9 @@ RULE = (
     "types; each workflow executed through execute_workflow (threaded dask) under 3 (quick) / 10 (thorough) "
     "forced completion orders. A case is distinct by (entry order, edges, kinds, context flags, op sequence); "
     "non-trivial if it has >= 4 tasks and a task with >= 2 predecessors. strata: A main 81%, B mixed "
-    "context/non-context predecessors 12%, D dask-interpretable static input 7%"
+    "context/non-context predecessors of one successor 12%, D dask-interpretable static input ('results', tuple "
+    "with callable head) 7%; 2.5% (quick) / 0.5% (thorough) of the A cases are additionally executed with the "
+    "distributed dispatcher (directly, through Context.call_workflow, or with an empty set as static input)"
 )
 ASSUMPTIONS = [
     "entry order of a task = position at which the harness first handed it to the builder; replace_task makes "
@@ -42,17 +44,19 @@ ASSUMPTIONS = [
     "dask copies list/tuple/dict static inputs: arguments are compared by deep equality (type-strict), the context "
     "by identity",
 ]
-MIN_NONTRIVIAL = {"quick": 600, "thorough": 8000}
+MIN_NONTRIVIAL = {"quick": 1500, "thorough": 15000}
 REQUIRED_MONITORS = ["exec", "once", "after_preds", "args", "args_multi_pred", "result", "struct", "insert_1:1",
                      "insert_N:N", "insert_N:1", "insert_1:N", "nm_refusal", "replace", "plus", "roundtrip",
                      "insert_context", "dask_dict", "multi_sink_refusal", "ctx_arg", "exec_ctxmix",
                      "exec_default_context", "workflows_with_2plus_orders"]
 KEY_CTX = "C17/context-task-predecessor-order"
 KEY_STATIC = "C17/static-input-interpreted-by-dask"
+KEY_SET = "C17/distributed-scatter-empty-set"
 
 N_SCHED = {"quick": 3, "thorough": 10}
 POLICIES = ["random", "rev_entry", "random", "entry", "random"]
 T_PARTIAL = 3.0  # s to wait for every ready task to have started before choosing among the started ones
+T_PARTIAL_NEXT = 0.25  # .. once that has happened in an execution (a task that never starts keeps never starting)
 T_STALL = 25.0  # s without any progress -> watchdog (case skipped, never a violation)
 GATE_TIMEOUT = 45.0
 _MISSING = object()
@@ -60,7 +64,7 @@ _ENV = {}
 
 
 def n_cases(tier):
-    return 2400 if tier == "quick" else 30000
+    return 6000 if tier == "quick" else 60000
 
 
 def setup(tier):
@@ -136,7 +140,72 @@ def make_fn(holder, tid, spec):
         def fn(*args):
             return holder.run.body(tid, args)
     fn.__name__ = f"task_{tid}"
+    # dask.distributed insists on a deterministic token for every callable in the graph; a closure over the
+    # recorder (locks) cannot be pickled, so the wrapper names itself
+    token = ("c17-task", tid, id(holder))
+    fn.__dask_tokenize__ = lambda: token
     return fn
+
+
+# ---- picklable variant of the wrappers (dask.distributed serialises the graph even for an in-process cluster)
+_REGISTRY = {}
+
+
+def _lookup(key):
+    return _REGISTRY[key]
+
+
+class _TaskObj:
+    def __init__(self, holder, tid):
+        self.holder = holder
+        self.tid = tid
+        self.key = ("c17-task", tid, id(holder))
+        _REGISTRY[self.key] = self
+
+    def __reduce__(self):
+        return (_lookup, (self.key,))
+
+    def __dask_tokenize__(self):
+        return self.key
+
+
+class _CtxTask(_TaskObj):
+    def __call__(self, context=_MISSING, *args):
+        return self.holder.run.body(self.tid, () if context is _MISSING else (context,) + args)
+
+
+class _DecoyTask(_TaskObj):
+    def __call__(self, Context=_MISSING, *context):
+        return self.holder.run.body(self.tid, () if Context is _MISSING else (Context,) + context)
+
+
+class _PlainTask(_TaskObj):
+    def __call__(self, *args):
+        return self.holder.run.body(self.tid, args)
+
+
+class _OuterTask:
+    """The single task of an outer workflow: runs the generated workflow through Context.call_workflow."""
+
+    def __init__(self, wf, unique):
+        self.wf = wf
+        self.unique = unique
+        self.key = ("c17-outer", unique)
+        _REGISTRY[self.key] = self
+
+    def __reduce__(self):
+        return (_lookup, (self.key,))
+
+    def __dask_tokenize__(self):
+        return self.key
+
+    def __call__(self, context):
+        return context.call_workflow(self.wf, self.unique)
+
+
+def make_obj(holder, tid, spec):
+    cls = _CtxTask if spec["ctx"] else (_DecoyTask if spec["form"] == "decoy" else _PlainTask)
+    return cls(holder, tid)
 
 
 def controller(run, sh, policy, rng):
@@ -158,7 +227,7 @@ def controller(run, sh, policy, rng):
                 waited = time.time() - t0
                 if cands and not exp_ready:
                     break
-                if cands and waited > T_PARTIAL:
+                if cands and waited > (T_PARTIAL if not run.partial else T_PARTIAL_NEXT):
                     run.partial += 1
                     break
                 if waited > T_STALL:
@@ -187,11 +256,38 @@ def controller(run, sh, policy, rng):
     run.release_all()
 
 
+class dispatcher_config:
+    """Sets pharmpy.workflows.dispatchers.conf.dask_dispatcher ('threaded'; None = unconfigured, for which
+    pharmpy falls back to 'distributed') and restores the previous state exactly."""
+
+    def __init__(self, value):
+        self.value = value
+
+    def __enter__(self):
+        import pharmpy.workflows.dispatchers as disp
+
+        self.had = "dask_dispatcher" in disp.conf.__dict__
+        self.old = disp.conf.__dict__.get("dask_dispatcher")
+        if self.value is None:
+            disp.conf.__dict__.pop("dask_dispatcher", None)
+        else:
+            disp.conf.dask_dispatcher = self.value
+
+    def __exit__(self, *exc):
+        import pharmpy.workflows.dispatchers as disp
+
+        if self.had:
+            disp.conf.__dict__["dask_dispatcher"] = self.old
+        else:
+            disp.conf.__dict__.pop("dask_dispatcher", None)
+
+
 # ------------------------------------------------------------------ building the pharmpy objects
 class Built:
-    def __init__(self, plan, holder):
+    def __init__(self, plan, holder, style="closure"):
         self.plan = plan
         self.holder = holder
+        self.style = style
         self.tasks = {}
         self.statics = {}
         self.tid_of = {}
@@ -202,7 +298,7 @@ class Built:
 
         if tid not in self.tasks:
             spec = self.plan["specs"][tid]
-            fn = make_fn(self.holder, tid, spec)
+            fn = (make_fn if self.style == "closure" else make_obj)(self.holder, tid, spec)
             st = [G.materialize(d, _ENV) for d in spec["static"]]
             task = Task(spec["name"], fn, *st) if tid % 2 else Task.create(spec["name"], fn, *st)
             self.tasks[tid] = task
@@ -266,11 +362,11 @@ def struct_check(c, wbx, sh, b, what, judge=True):
     return probs
 
 
-def build(c, plan, holder, ctx, judge=True):
+def build(c, plan, holder, ctx, judge=True, style="closure"):
     """Replays the plan against pharmpy.  Returns (builder, Built, shadow, problems)."""
     from pharmpy.workflows import Workflow, WorkflowBuilder, execute_workflow
 
-    b = Built(plan, holder)
+    b = Built(plan, holder, style)
     sh = G.Shadow()
     wb = None
     probs = []
@@ -342,13 +438,16 @@ def build(c, plan, holder, ctx, judge=True):
                 if judge:
                     try:
                         holder.run = Run(plan["specs"], gated=False)
-                        execute_workflow(Workflow(wb), context=ctx)
+                        with dispatcher_config("threaded"):
+                            execute_workflow(Workflow(wb), context=ctx)
                         probs.append(("exec", f"{what}: workflow with {len(sh.sinks())} output tasks was executed", None))
                     except ValueError:
                         pass
                     c.hit("multi_sink_refusal")
                     if holder.run.events:
                         c.hit("not_judged:tasks_ran_before_multi_sink_refusal")
+        except CaseTimeout:
+            raise
         except Exception as e:
             probs.append(("struct", f"{what} raised {type(e).__name__}: {e}", None))
             return wb, b, sh, probs
@@ -422,8 +521,11 @@ def check_dask_dict(c, wb, sh, b):
 
 # ------------------------------------------------------------------ executing and judging
 def execute(plan, wf, sh, holder, mode, ctx, ctxdir, policy, rng, gated=True, dispatcher_conf="threaded"):
-    import pharmpy.workflows.dispatchers as disp
-    from pharmpy.workflows import execute_workflow, local_dask
+    from pharmpy.workflows import Task, Workflow, WorkflowBuilder, execute_workflow, local_dask
+
+    if mode == "nested":
+        outer = _OuterTask(wf, f"inner-results-{id(holder)}")
+        wf = Workflow(WorkflowBuilder(tasks=[Task("outer", outer)], name="outer"))
 
     run = Run(plan["specs"], gated)
     run.release_order = []
@@ -432,25 +534,20 @@ def execute(plan, wf, sh, holder, mode, ctx, ctxdir, policy, rng, gated=True, di
     if gated:
         th = threading.Thread(target=controller, args=(run, sh, policy, rng), daemon=True)
         th.start()
-    old = disp.conf.dask_dispatcher
-    if dispatcher_conf is None:
-        disp.conf.__dict__.pop("dask_dispatcher", None)  # unconfigured -> pharmpy falls back to 'distributed'
-    else:
-        disp.conf.dask_dispatcher = dispatcher_conf
     res, exc = None, None
     try:
-        if mode == "path":
-            res = execute_workflow(wf, path=ctxdir)
-        elif mode == "dispatcher":
-            res = execute_workflow(wf, dispatcher=local_dask, context=ctx)
-        else:
-            res = execute_workflow(wf, context=ctx)
+        with dispatcher_config(dispatcher_conf):
+            if mode == "path":
+                res = execute_workflow(wf, path=ctxdir)
+            elif mode == "dispatcher":
+                res = execute_workflow(wf, dispatcher=local_dask, context=ctx)
+            else:
+                res = execute_workflow(wf, context=ctx)
+    except CaseTimeout:
+        raise
     except Exception as e:
         exc = e
     finally:
-        disp.conf.__dict__.pop("dask_dispatcher", None)
-        if old is not None:
-            disp.conf.dask_dispatcher = old
         with run.cv:
             run.done = True
             run.cv.notify_all()
@@ -564,6 +661,8 @@ def run_plan(c, plan, rng_seeds, tier, ctxroot, modes, judge_struct=True, count=
     if judge_struct:
         probs += check_insert_context(c, wb, sh, b, ctx)
         probs += check_dask_dict(c, wb, sh, b)
+        if probs:
+            return probs, [], sh
     wf = Workflow(wb)
     orders = []
     for s, (policy, seed) in enumerate(rng_seeds):
@@ -625,7 +724,7 @@ def run_case(rng, idx, tier):
         modes["exec"] = ["path", "ctx"]
     elif r2 < 0.3:
         modes["exec"] = ["dispatcher", "ctx"]
-    distributed = stratum == "A" and rng.random() < (0.012 if tier == "quick" else 0.002)
+    distributed = stratum == "A" and rng.random() < (0.025 if tier == "quick" else 0.005)
     scratch = Path(os.environ.get("VERIF_SCRATCH", "/var/tmp")) / f"c17-{idx}"
     scratch.mkdir(parents=True, exist_ok=True)
     try:
@@ -654,7 +753,7 @@ def run_case(rng, idx, tier):
                 c.hit("delta_check")
                 if dprobs != "watchdog" and not dprobs:
                     key = KEY_CTX if stratum == "B" else KEY_STATIC
-            for k, m, d in probs[:6]:
+            for k, m, d in probs[:3]:
                 c.violate(key, m, {"kind": k, "plan": c.sample})
         elif stratum == "D":
             c.hit("hostile_static_held")
@@ -666,25 +765,55 @@ def run_case(rng, idx, tier):
 
 
 def _distributed(c, plan, rng, scratch):
-    """pharmpy's default dispatcher when nothing is configured: dask distributed on a LocalCluster of threads."""
+    """pharmpy's default dispatcher when nothing is configured: dask distributed on a LocalCluster of threads.
+    Half of these executions carry an empty set as a static input (stratum of KEY_SET), the others none."""
+    with_empty = rng.random() < 0.4
+    nested = not with_empty and rng.random() < 0.5
+    plan = G.inject_empty_set(rng, plan) if with_empty else G.delta_sets(plan)
+    seed = rng.random()
+    out = _distributed_once(c, plan, seed, scratch / "dist", "nested" if nested else "ctx")
+    if out == "env":
+        return
+    kind, probs = out
+    if kind == "ok":
+        c.hit("exec_distributed_call_workflow" if nested else "exec_distributed")
+        if with_empty:
+            c.hit("exec_distributed_empty_set")
+        for k, m, d in probs[:4]:
+            c.violate(None, "[distributed dispatcher] " + m, {"kind": k, "plan": G.render(plan)})
+        return
+    # execute_workflow raised
+    exc = probs
+    if with_empty:
+        c.hit("exec_distributed_empty_set")
+        out2 = _distributed_once(c, G.delta_sets(plan), seed, scratch / "dist2")
+        if out2 != "env" and out2[0] == "ok" and not out2[1]:
+            c.violate(KEY_SET, f"[distributed dispatcher] execute_workflow raised {type(exc).__name__}: {str(exc)[:150]} "
+                               "(a static input contains an empty set)", {"plan": G.render(plan)})
+            return
+    c.hit("not_judged:distributed_error:" + type(exc).__name__)
+
+
+def _distributed_once(c, plan, seed, ctxroot, mode="ctx"):
     from pharmpy.workflows import LocalDirectoryContext, Workflow
 
     holder = Holder()
-    ctx = LocalDirectoryContext("ctxd", ref=str(scratch / "dist"))
+    ctx = LocalDirectoryContext("ctxd", ref=str(ctxroot))
     ctx.broadcast_message = lambda *a, **k: None
-    wb, b, sh, probs = build(c, plan, holder, ctx, judge=False)
+    wb, b, sh, probs = build(c, plan, holder, ctx, judge=False, style="object")
     if probs:
-        return
-    wf = Workflow(wb)
-    run, res, exc = execute(plan, wf, sh, holder, "ctx", ctx, None, "random", random.Random(rng.random()),
-                            gated=True, dispatcher_conf=None)
+        return "env"
+    try:
+        import logging
+
+        logging.getLogger("distributed").setLevel(logging.CRITICAL)
+        run, res, exc = execute(plan, Workflow(wb), sh, holder, mode, ctx, None, "random", random.Random(seed),
+                                gated=True, dispatcher_conf=None)
+    finally:
+        _REGISTRY.clear()
     if run.stalled:
         c.hit("not_judged:distributed_stalled")
-        return
+        return "env"
     if exc is not None:
-        c.hit("not_judged:distributed_error:" + type(exc).__name__)
-        return
-    c.hit("exec_distributed")
-    p = judge(c, run, res, exc, sh, b, lambda x: x is ctx, count=False)
-    for k, m, d in p[:4]:
-        c.violate(None, "[distributed dispatcher] " + m, {"kind": k, "plan": c.sample})
+        return "exc", exc
+    return "ok", judge(c, run, res, exc, sh, b, lambda x: x is ctx, count=False)
